@@ -439,7 +439,8 @@ def split_tuple_assign(s):
             names = {x.id for x in t.elts}
             v = s.value
             if isinstance(v, (ast.Tuple, ast.List)) and len(v.elts) == len(t.elts) and not any(isinstance(x, ast.Starred) for x in v.elts):
-                if not (names & _names_loaded(v)):
+                # sequential assignment is equivalent when no target is read by a LATER value
+                if not any(t.elts[i].id in _names_loaded(v.elts[j]) for i in range(len(t.elts)) for j in range(i + 1, len(t.elts))):
                     return [ast.copy_location(ast.Assign(targets=[ast.copy_location(ast.Name(id=x.id, ctx=ast.Store()), s)], value=e), s)
                             for x, e in zip(t.elts, v.elts)]
             if isinstance(v, ast.Attribute) and v.attr == "shape" and _simple_arg(v.value) and not (names & _names_loaded(v)):
